@@ -118,6 +118,8 @@ struct Frontier {
     /// per spend: parent, puzzle hash, amount, puzzle node, condition list node
     spends: Vec<([u8; 32], [u8; 32], u64, Tid, Tid)>,
     sum_over_64_bits: bool,
+    /// the true sum of all RESERVE_FEE conditions in the bundle
+    fee_sum: u128,
 }
 
 fn split_amount(mut total: u128, s: &mut Src<'_>) -> Vec<u64> {
@@ -316,6 +318,7 @@ fn gen_frontier(s: &mut Src<'_>) -> Frontier {
         n_spends: spends.len(),
         spends,
         sum_over_64_bits: total_in > u128::from(u64::MAX),
+        fee_sum: fees.iter().map(|f| u128::from(*f)).sum(),
     }
 }
 
@@ -348,6 +351,15 @@ pub fn case_parse_frontier(bytes: &[u8], ctx: &mut Ctx) -> CaseResult {
             ctx.label(format!("accepted:{}", f.kind));
             let o = OwnedSpendBundleConditions::from(&a, c);
             check_invariant(&o, "parse_spends", None)?;
+            // the reserved fee is the sum of all RESERVE_FEE conditions (the
+            // generator knows them): it must not be reported wrapped or saturated
+            vensure!(
+                u128::from(o.reserve_fee) == f.fee_sum,
+                "C02:parse_spends:reserved-fee-not-the-sum-of-its-conditions",
+                "reported reserve_fee {} but the RESERVE_FEE conditions add up to {}",
+                o.reserve_fee,
+                f.fee_sum
+            );
             if o.spends.len() >= 2 || o.spends.iter().any(|s| !s.create_coin.is_empty()) {
                 let mut h = Fnv::new();
                 h.write(&f.tree.serialize(f.root));
